@@ -679,7 +679,8 @@ def gen_stream(rng):
     or a real io.BufferedReader over a raw sim stream (drawn buffer size)."""
     kind = rng.weighted([(12, 'sim'), (4, 'bytesio'), (4, 'buffered'),
                          (1, 'minimal'), (1, 'gzip'), (1, 'mmap'),
-                         (1, 'spooled'), (1, 'file'), (1, 'gzipfile')])
+                         (1, 'spooled'), (1, 'file'), (1, 'gzipfile'),
+                         (1, 'rawfile'), (1, 'fdfile')])
     return kind, (rng.choice([1, 2, 7, 64, 512, 8192])
                   if kind == 'buffered' else None)
 
